@@ -13,6 +13,11 @@ impl<'a> Display for XmlEscaped<'a> {
                 '"' => write!(formatter, "&quot;"),
                 '\'' => write!(formatter, "&apos;"),
                 '&' => write!(formatter, "&amp;"),
+                // An attribute value is whitespace-normalized by the reader: as a character
+                // reference the character survives.
+                '\t' => write!(formatter, "&#9;"),
+                '\n' => write!(formatter, "&#10;"),
+                '\r' => write!(formatter, "&#13;"),
                 _ => write!(formatter, "{char}"),
             }?;
         }
